@@ -133,15 +133,21 @@ func (db *MemDB) StoreExternal(ctx context.Context, duty core.Duty, signedSet co
 
 	output := make(map[core.PubKey][]core.ParSignedData)
 
+	// A rejected entry must not prevent the threshold trigger of another validator in the
+	// same batch that was already stored: the first error is returned after the fan-out.
+	var storeErr error
+
 	for pubkey, sig := range signedSet {
 		subcommIdx, err := core.SyncSubcommitteeIndex(duty.Type, sig.SignedData)
 		if err != nil {
-			return err
+			storeErr = err
+			break
 		}
 
 		sigs, ok, err := db.store(ctx, key{Duty: duty, PubKey: pubkey, SubcommIdx: subcommIdx}, sig, exempt)
 		if err != nil {
-			return err
+			storeErr = err
+			break
 		} else if !ok {
 			log.Debug(ctx, "Ignoring duplicate partial signature")
 
@@ -151,7 +157,8 @@ func (db *MemDB) StoreExternal(ctx context.Context, duty core.Duty, signedSet co
 		// Check if sufficient matching partial signed data has been received.
 		psigs, ok, err := getThresholdMatching(duty.Type, sigs, db.threshold)
 		if err != nil {
-			return err
+			storeErr = err
+			break
 		} else if !ok {
 			continue
 		}
@@ -160,7 +167,7 @@ func (db *MemDB) StoreExternal(ctx context.Context, duty core.Duty, signedSet co
 	}
 
 	if len(output) == 0 {
-		return nil
+		return storeErr
 	}
 
 	// Call the threshSubs (which includes SigAgg component)
@@ -171,7 +178,7 @@ func (db *MemDB) StoreExternal(ctx context.Context, duty core.Duty, signedSet co
 		}
 	}
 
-	return nil
+	return storeErr
 }
 
 // Trim blocks until the context is closed, it deletes state for expired duties.
